@@ -49,10 +49,12 @@ type c08Spec struct {
 	Steps  int    `json:"steps,omitempty"` // vt kind: number of inject/send/sentinel steps
 	TTL    string `json:"ttl,omitempty"`   // star topologies: "tight" = every member's TTL is set to the longest path of the topology
 	Refuse int    `json:"refuse,omitempty"` // topology cases: on this many links a pipe event hook closes the first connection(s) while they are attaching
+	Early  int    `json:"early,omitempty"`  // topology cases: on this many links the dialing side first dials (synchronously, 1..2 times) before the other side listens — refused — and dials again once it does
+	Reopt  int    `json:"reopt,omitempty"`  // topology cases: between rounds connected members get SetOption(WRITEQ-LEN / READQ-LEN, n)
 }
 
 func (sp c08Spec) String() string {
-	return fmt.Sprintf("%s/%s%v raw=%b dev=%s tr=%s r=%d w=%d p=%d %s/%d rf=%d", sp.Fam, sp.Kind, sp.Shape, sp.Raw, sp.Dev, sp.Tr, sp.Rounds, sp.W, sp.Procs, sp.Sock, sp.Steps, sp.Refuse)
+	return fmt.Sprintf("%s/%s%v raw=%b dev=%s tr=%s r=%d w=%d p=%d %s/%d rf=%d", sp.Fam, sp.Kind, sp.Shape, sp.Raw, sp.Dev, sp.Tr, sp.Rounds, sp.W, sp.Procs, sp.Sock, sp.Steps, sp.Refuse) + fmt.Sprintf(" early=%d reopt=%d", sp.Early, sp.Reopt)
 }
 
 func TestMain(m *testing.M) { hx.Main(m) }
@@ -148,6 +150,20 @@ func TestC08(t *testing.T) {
 		sp := genTopo(i)
 		sp.Refuse = 1 + rnd.Intn(2)
 		cases = append(cases, mon.CaseSpec{Name: sp.Fam + "-" + sp.Kind + "-refuse", Spec: sp})
+	}
+	// the same topologies, joined by an application that does not wait for its peers: on one or two links
+	// (or on all) the dialing member's first synchronous Dial comes before the other side listens and
+	// fails; it dials the same address again once the listener exists
+	for i := 0; i < r.Pick(120, 3000); i++ {
+		sp := genTopo(i)
+		sp.Early = 1 + rnd.Intn(3)
+		cases = append(cases, mon.CaseSpec{Name: sp.Fam + "-" + sp.Kind + "-early", Spec: sp})
+	}
+	// the same topologies, with queue-length options changed on connected sockets between rounds
+	for i := 0; i < r.Pick(120, 3000); i++ {
+		sp := genTopo(i)
+		sp.Reopt = 1
+		cases = append(cases, mon.CaseSpec{Name: sp.Fam + "-" + sp.Kind + "-reopt", Spec: sp})
 	}
 	r.Run(cases, func(c *mon.Case) {
 		sp := c.Spec.(c08Spec)
@@ -391,6 +407,12 @@ func c08Topo(c *mon.Case, sp c08Spec) {
 	if sp.Refuse > 0 {
 		pre += "/after-refusal"
 	}
+	if sp.Early > 0 {
+		pre += "/after-early-dial"
+	}
+	if sp.Reopt > 0 {
+		pre += "/qlen-changed"
+	}
 
 	// lossless bound: per round no (node, link) send queue ever has to hold more than 100 < 128 messages
 	maxT := 1
@@ -501,6 +523,17 @@ func c08Topo(c *mon.Case, sp c08Spec) {
 			plans[li] = c08RefusePlan{side: []string{"dial", "dial", "listen"}[c.Rand.Intn(3)], n: 1 + c.Rand.Intn(2)}
 		}
 	}
+	early := map[int]int{} // link -> number of dials made before the listener exists
+	var reconnE time.Duration
+	if sp.Early > 0 {
+		reconnE = []time.Duration{time.Millisecond, 2 * time.Millisecond, 5 * time.Millisecond}[c.Rand.Intn(3)]
+		for k, li := range c.Rand.Perm(len(g.links)) {
+			if k >= sp.Early && sp.Early < 3 { // 3 = every link
+				break
+			}
+			early[li] = 1 + c.Rand.Intn(2)
+		}
+	}
 	stale := map[[2]int]int{} // (node, socket side) -> connections that attach there and are then closed by the other end's refusal
 	for i := range g.links {
 		l := &g.links[i]
@@ -528,6 +561,19 @@ func c08Topo(c *mon.Case, sp c08Spec) {
 			}
 			continue
 		}
+		if nf := early[i]; nf > 0 {
+			if l.tr == "tcp" { // a tcp address is only known once the listener exists
+				l.tr = "ipc"
+			}
+			st, err := c08ConnectEarly(g.nodes[a].socks[as], g.nodes[b].socks[bs], l.tr, nf, reconnE)
+			if err != nil {
+				c.Inconclusive("connect %s (%s): %v", l.tr, st, err)
+				return
+			}
+			c.Count("synchronous_dials_refused_before_the_peer_listened", nf)
+			c.Count("links_joined_by_a_second_dial_after_a_refused_one", 1)
+			continue
+		}
 		if _, _, err := hx.Connect(g.nodes[a].socks[as], g.nodes[b].socks[bs], l.tr); err != nil {
 			c.Inconclusive("connect %s: %v", l.tr, err)
 			return
@@ -552,6 +598,13 @@ func c08Topo(c *mon.Case, sp c08Spec) {
 			return
 		}
 		c.Count("connections_closed_by_hook_while_attaching", refused)
+	}
+
+	if sp.Early > 0 {
+		// every link is up.  A dial that was refused is over: nothing of it may connect later.  Give a
+		// (wrong) background retry of it several reconnect intervals to show up before and during traffic;
+		// the verdict is only ever the delivery oracle below (a second connection = every message twice).
+		mon.Sleep(8 * reconnE)
 	}
 
 	// relayed sends: some cooked members send part of their data with SendMsg in a message that still
@@ -814,7 +867,22 @@ func c08Topo(c *mon.Case, sp c08Spec) {
 		return out
 	}
 	seeds := make([]int64, nm)
+	reopts := 0
 	for ph := 0; ph < phases && !c.Failed(); ph++ {
+		if sp.Reopt > 0 && ph > 0 {
+			// the barrier of the previous round has passed: every expected delivery has happened, nothing is
+			// in flight and every queue is empty.  Queue lengths stay >= 128 on the sending side (the burst
+			// bound is 100), any length on the receiving side (it is fed by blocking puts).
+			n, err := c08Reopt(c, g, ph == 1)
+			if err != nil {
+				c.Inconclusive("phase %d: %v", ph, err)
+				return
+			}
+			reopts += n
+		}
+		if sp.Early > 0 && ph > 0 && ph <= 2 {
+			mon.Sleep(4 * reconnE)
+		}
 		for i := range seeds {
 			seeds[i] = c.Rand.Int63()
 		}
@@ -901,6 +969,13 @@ func c08Topo(c *mon.Case, sp c08Spec) {
 	if sp.Refuse > 0 {
 		c.Count("cases_after_refusal_"+fam, 1)
 	}
+	if sp.Early > 0 {
+		c.Count("cases_after_early_dial_"+fam, 1)
+	}
+	if sp.Reopt > 0 {
+		c.Count("cases_qlen_changed_"+fam, 1)
+		c.Count("qlen_options_set_on_connected_sockets_between_rounds", reopts)
+	}
 	if compared > 0 && nm >= 2 && !c.Failed() {
 		c.Nontrivial()
 	}
@@ -914,6 +989,12 @@ func c08Topo(c *mon.Case, sp c08Spec) {
 		if pl.n > 0 {
 			rf += fmt.Sprintf("%s%d", pl.side[:1], pl.n)
 		}
+	}
+	if len(early) > 0 {
+		rf += fmt.Sprintf("e%d", len(early))
+	}
+	if reopts > 0 {
+		rf += fmt.Sprintf("o%d", reopts/4)
 	}
 	c.Sig("%s|%v|%b|%s|%s|p%d|il%d|%s|h%v", pre, sp.Shape, rawm, sp.Tr, linkTrs(g), sp.Procs, il, rf, len(hdrOf) > 0)
 }
